@@ -23,7 +23,21 @@ EXPLANATION = (
     "for the request's id, or insertion of the session) — counted with ghost atoms in a predicate abstraction; R4 timer-originated close "
     "commands are re-validated against the session state and the timer handlers only enqueue; R5 announce precedes data and follows "
     "insertion; R6 session ids are only ever post-incremented; R7 every insertion bumps the gauge, every decrement is paired with the "
-    "closed flag; R8 transport fan-out order: global callback, observers, tombstone, user-data cleanup, each outside its lock.")
+    "closed flag; R8 transport fan-out order: global callback, observers, tombstone, user-data cleanup, each outside its lock. "
+    "Anchor functions are judged on inlined views: calls to methods of the same class that carry the events a rule reads (a notify helper, a "
+    "stale-timer predicate, per-step methods of the close handler, an Impl method the facade forwards to) are expanded in place with parameters "
+    "bound to arguments and bool results wired to the branch they decide, so moving a block into a helper changes no verdict.")
+# exempt from the function-inventory guard (report.py): these rules look into the helpers themselves (inlined views, below) or hold
+# for every function of the engine files wherever the code sits
+FOLLOWS_HELPERS = {"C02-R1": "universal over every function of both engine files; a helper that notifies is accepted only when every call of it is expanded inside the closed set, where R2/R3/R3c judge it",
+                   "C02-R2": "closeNow / shutdownDrain are judged on a view in which engine helpers that notify, set Session::closed or change _sessions are expanded in place",
+                   "C02-R3": "the connect handlers are judged on the same view: a failure path that notifies through a helper is counted where the helper is called",
+                   "C02-R3c": "shutdownDrain is judged on the same view",
+                   "C02-R4": "pure bool predicates of the engine are expanded at the branch they decide (switch edges refine the origin atoms); a guard the rule cannot expand is a refusal raised by the rule itself",
+                   "C02-R5": "helpers that only announce, and helpers that create the session called from a function that delivers data, are expanded in place; other moves leave fewer obligations than the floor, which is a refusal raised by the rule itself",
+                   "C02-R6": "universal: every write of _nextSessionId in either engine file, whatever function it is in",
+                   "C02-R8": "the close handler is judged on a view in which every Impl method it runs through (named handler, one method per step) is expanded in place; the observer-list and setSessionData clauses scan every function of the file",
+                   "C02-R9": "the close-handler side is read from the same expanded view; a flush loop that is no longer in setReadMode is a refusal raised by the rule itself"}
 NOT_DECIDED = ["which close site is reached in which session state at run time (the schedule quantifier)",
                "'never none while the transport keeps running' for sessions that see no event (liveness)",
                "observer registration racing the close"]
@@ -61,20 +75,451 @@ def engine_fn(fb, cls, name):
     return fb.func(cls + "::" + name, file_suffix=FILES[cls])
 
 
+# ------------------------------------------------------------------ inlined views (helper extraction is not a change of behaviour)
+#
+# The rules below speak about events *inside* an anchor function: "the notification is dominated by closed = true", "every return
+# of doConnect has passed exactly one terminal event", "global callback before observers before cleanup".  When a block of such a
+# function is moved verbatim into a helper of the same class, the events are still executed at the same point of every path — only
+# one call deeper.  `inlined(fb, f, want)` builds a second Function object for f in which every call `this->g(args)` (or a static
+# call of the same class) to a function g selected by `want(g)` is expanded: the calling block is split after the call element, a
+# renumbered copy of g's CFG is spliced in between, each parameter is bound to its argument (a synthetic declaration, and — where
+# the argument is a side-effect-free access path or constant the callee cannot change — every use of the parameter is replaced by
+# the argument, so that `closeCb(sid, …)` inside notifyClose(cr.sid, …) reads `closeCb(cr.sid, …)`), callee `return`s become
+# plain jumps (kind "iret": they are not exits of f), and when the call IS the branch condition of its block each callee return
+# is wired straight to the branch successor its value selects (constant) or branches on the returned expression itself — so
+# `if (isStale(s, o)) break;` keeps the correlation between the path taken inside isStale and the edge taken by the caller.
+# Nothing is keyed on a helper's name: `want` is a semantic predicate (same class, not an anchor of the rule, contains events the
+# rule reads).  The view has its own `sig`, so per-function caches (lock sets, dominators) never mix it up with the original.
+
+import copy as _copy
+
+_ASSIGN_OPS = ("=", "+=", "-=", "*=", "/=", "%=", "|=", "&=", "^=", "<<=", ">>=")
+_TWO_WAY = ("IfStmt", "WhileStmt", "ForStmt", "DoStmt")
+
+
+def _shift(x, no, do, to):
+    """renumber a copied piece of a callee's raw facts in place: node ids (+no), declaration ids (+do), try ids (+to)"""
+    if isinstance(x, list):
+        for y in x:
+            _shift(y, no, do, to)
+        return
+    if not isinstance(x, dict):
+        return
+    for k, v in x.items():
+        if isinstance(v, (dict, list)):
+            _shift(v, no, do, to)
+        elif isinstance(v, int) and not isinstance(v, bool):
+            if k in ("id", "e"):
+                x[k] = v + no
+            elif k == "d":
+                x[k] = v + do
+            elif k in ("try", "catch") and v:
+                x[k] = v + to
+
+
+def _maxima(raw):
+    """largest node id, declaration id, try id, block id used in a function's raw facts"""
+    m = {"n": 0, "d": 0, "t": 0, "b": 0}
+
+    def go(x):
+        if isinstance(x, list):
+            for y in x:
+                go(y)
+        elif isinstance(x, dict):
+            for k, v in x.items():
+                if isinstance(v, (dict, list)):
+                    go(v)
+                elif isinstance(v, int) and not isinstance(v, bool):
+                    if k in ("id", "e", "cond", "fullcond"):
+                        m["n"] = max(m["n"], v)
+                    elif k == "d":
+                        m["d"] = max(m["d"], v)
+                    elif k in ("try", "catch"):
+                        m["t"] = max(m["t"], v)
+    for b in raw.get("blocks", []):
+        m["b"] = max(m["b"], b["id"])
+        go(b.get("elems"))
+        go(b.get("label"))
+        go(b.get("term"))
+    go(raw.get("params"))
+    for t in raw.get("trys", []):
+        m["t"] = max(m["t"], t["id"])
+    return m
+
+
+def _pure(n):
+    """the expression has no side effect and calls nothing (smart-pointer dereference and get()/load() are looked through)"""
+    n = strip_casts(n)
+    if n is None:
+        return False
+    k = n.get("k")
+    if k in ("var", "this", "gvar", "gref", "enum", "int", "bool", "char", "str", "null", "float", "sizeof", "fref", "fieldref"):
+        return True
+    if k == "member":
+        return n.get("b") is None or _pure(n["b"])
+    if k == "un":
+        return n.get("op") in ("*", "&", "!", "-", "~", "+") and _pure(n.get("v"))
+    if k == "bin":
+        return n.get("op") not in _ASSIGN_OPS and _pure(n.get("lhs")) and _pure(n.get("rhs"))
+    if k == "opcall" and n.get("op") in ("->", "*") and len(n.get("args", [])) == 1:
+        return _pure(n["args"][0])
+    if k == "mcall" and last(n.get("callee", "")) in ("get", "load", "value") and not n.get("args"):
+        return _pure(n.get("obj"))
+    if k == "idx":
+        return _pure(n.get("b")) and _pure(n.get("i"))
+    return False
+
+
+def _index_raw(x, nodes):
+    if isinstance(x, list):
+        for y in x:
+            _index_raw(y, nodes)
+    elif isinstance(x, dict):
+        if "k" in x and isinstance(x.get("id"), int):
+            nodes.setdefault(x["id"], x)
+        for v in x.values():
+            if isinstance(v, (dict, list)):
+                _index_raw(v, nodes)
+
+
+def _subst_param(x, d, make):
+    """replace every `var` node that refers to declaration d inside x by make(old node)"""
+    if isinstance(x, list):
+        for i, y in enumerate(x):
+            if isinstance(y, dict) and y.get("k") == "var" and y.get("d") == d:
+                x[i] = make(y)
+            else:
+                _subst_param(y, d, make)
+    elif isinstance(x, dict):
+        for k, v in list(x.items()):
+            if isinstance(v, dict) and v.get("k") == "var" and v.get("d") == d:
+                x[k] = make(v)
+            elif isinstance(v, (dict, list)):
+                _subst_param(v, d, make)
+
+
+def _written_in(g, d):
+    """the callee assigns to / increments its parameter with declaration id d"""
+    for n in g.nodes.values():
+        if n.get("k") == "var" and n.get("d") == d and access.classify(g, n) in ("write", "rw"):
+            return True
+    return False
+
+
+def _fields_written(g):
+    return {n["n"] for n in g.nodes.values() if n.get("k") == "member" and access.classify(g, n) in ("write", "rw")}
+
+
+def _splice(raw, blocks, nodes, nxt, chain, blk, i, call, g):
+    """expand the call `call` (element i of block blk) to the function g; returns the ids of the blocks created"""
+    craw = _copy.deepcopy(g.raw)
+    cm = _maxima(craw)
+    no, do, to, bo = nxt["n"], nxt["d"], nxt["t"], nxt["b"]
+    nxt["n"] += cm["n"] + 1
+    nxt["d"] += cm["d"] + 1
+    nxt["t"] += cm["t"] + 1
+    nxt["b"] += cm["b"] + 1
+    created = []
+    # lexical try context of the call site: the callee's code runs inside it
+    site_try = 0
+    for el in blk["elems"][i:]:
+        if "root" in el and any(x is call for x in walk(el["root"])):
+            site_try = el.get("try", 0)
+            break
+    # the continuation: what followed the call in its block
+    post = {"id": nxt["b"], "elems": blk["elems"][i + 1:], "succs": blk["succs"]}
+    nxt["b"] += 1
+    for k in ("term", "noreturn", "looptarget"):
+        if k in blk:
+            post[k] = blk.pop(k)
+    blk["elems"] = blk["elems"][:i + 1]
+    # is the call the very condition this block branches on (possibly under `!`)?  then returns are wired to the branch edges
+    direct, neg = None, 0
+    t = post.get("term")
+    if t and t.get("k") in _TWO_WAY and len(post["succs"]) == 2 and all(isinstance(s, int) for s in post["succs"]) and t.get("cond") is not None \
+            and t.get("fullcond") in (None, t.get("cond")) and g.raw.get("ret") == "bool":
+        c = nodes.get(t["cond"])
+        while c is not None and c.get("k") == "un" and c.get("op") == "!" and isinstance(c.get("v"), dict):
+            c = strip_casts(c["v"])
+            neg += 1
+        named = None
+        if c is not None and c.get("k") == "var" and sum(1 for x in nodes.values() if x.get("k") == "var" and x.get("d") == c.get("d")) == 1:
+            # `const bool stale = g(…); if (stale)`: a named condition, read by nothing but this branch
+            for el in post["elems"]:
+                rt = el.get("root")
+                if rt is not None and rt.get("k") == "decl" and len(rt["vars"]) == 1 and rt["vars"][0]["d"] == c.get("d") and rt["vars"][0]["t"].strip() in ("const bool", "bool const") \
+                        and strip_casts(rt["vars"][0].get("init")) is call:
+                    named, c = rt, call
+        rest_ok = all(("root" not in el or el["root"] is named or (nodes.get(el.get("e")) or {}).get("k") in ("un", "cast", "var")) and el.get("k") is None for el in post["elems"])
+        if c is call and rest_ok:
+            direct = (post["succs"][1], post["succs"][0]) if neg % 2 else (post["succs"][0], post["succs"][1])
+    if direct is None and g.raw.get("ret") == "bool":
+        nxt.setdefault("unwired", []).append(g.name)
+    # the callee's blocks, renumbered
+    for cb in craw["blocks"]:
+        _shift(cb.get("elems"), no, do, to)
+        _shift(cb.get("label"), no, do, to)
+        tm = cb.get("term")
+        if tm:
+            for k in ("cond", "fullcond"):
+                if isinstance(tm.get(k), int):
+                    tm[k] += no
+            if tm.get("try"):
+                tm["try"] += to
+        is_exit = cb["id"] == craw["exit"]
+        cb["succs"] = [s + bo if isinstance(s, int) else s for s in cb["succs"]]
+        cb["id"] += bo
+        if is_exit:
+            cb["succs"] = [post["id"]]
+        if site_try:
+            for el in cb["elems"]:
+                if "root" in el and not el.get("try"):
+                    el["try"] = site_try
+        _index_raw(cb.get("elems"), nodes)
+        blocks[cb["id"]] = cb
+        chain[cb["id"]] = chain[blk["id"]] + (g.name,)
+        created.append(cb["id"])
+    for tr in craw.get("trys", []):
+        tr = dict(tr)
+        tr["id"] += to
+        if tr.get("parent"):
+            tr["parent"] += to
+        elif site_try:
+            tr["parent"] = site_try
+        if tr.get("in_catch_of"):
+            tr["in_catch_of"] += to
+        raw.setdefault("trys", []).append(tr)
+    # returns: not exits of the caller
+    for cb in craw["blocks"]:
+        for el in cb["elems"]:
+            r = el.get("root")
+            if r is not None and r.get("k") == "ret":
+                r["k"] = "iret"
+                v = r.get("v")
+                if direct is not None and isinstance(v, dict) and cb["succs"] == [craw["exit"] + bo]:
+                    cv = const_value(v)
+                    if cv is not None:
+                        cb["succs"] = [direct[0] if cv else direct[1]]
+                    elif isinstance(v.get("id"), int):
+                        cb["term"] = {"k": "IfStmt", "l": r.get("l", 0), "cond": v["id"], "fullcond": v["id"]}
+                        cb["succs"] = [direct[0], direct[1]]
+    # parameters: bound to the arguments
+    entry = blocks[craw["entry"] + bo]
+    wr = None
+    binds = []
+    args = call.get("args", [])
+    for j, p in enumerate(g.params):
+        a = args[j] if j < len(args) else None
+        if a is None or a.get("def") or not _pure(a) or not p.get("n"):
+            continue
+        pd = p["d"] + do
+        nid = nxt["n"]
+        nxt["n"] += 1
+        init = _fresh(a, nxt)
+        binds.append({"e": nid, "root": {"id": nid, "k": "decl", "l": call.get("l", 0), "inlined_param": True, "vars": [{"n": p["n"], "d": pd, "t": p["t"], "init": init}]}})
+        if site_try:
+            binds[-1]["try"] = site_try
+        # uses of the parameter read the argument itself where that is the same value at every use
+        stable = access_path(a) is not None or const_value(a) is not None
+        if stable and not _written_in(g, p["d"]):
+            byref = "&" in p["t"]
+            if wr is None:
+                wr = _fields_written(g)
+            if byref or not ({x["n"] for x in walk(a) if x.get("k") == "member"} & wr):
+                def make(old, a=a):
+                    c = _fresh(a, nxt)
+                    if isinstance(old.get("id"), int):
+                        c["id"] = old["id"]
+                    return c
+                for cb in craw["blocks"]:
+                    _subst_param(cb.get("elems"), pd, make)
+    entry["elems"] = binds + entry["elems"]
+    for cb in craw["blocks"]:
+        # (re-index: substituted copies and the synthetic declarations)
+        for el in cb["elems"]:
+            if "root" in el:
+                for x in walk(el["root"]):
+                    if isinstance(x.get("id"), int):
+                        nodes[x["id"]] = x
+    blk["succs"] = [entry["id"]]
+    blocks[post["id"]] = post
+    chain[post["id"]] = chain[blk["id"]]
+    created.append(post["id"])
+    return created
+
+
+def _fresh(a, nxt):
+    """a copy of the expression tree a with new node ids"""
+    c = _copy.deepcopy(a)
+    for x in walk(c):
+        if isinstance(x.get("id"), int):
+            x["id"] = nxt["n"]
+            nxt["n"] += 1
+    return c
+
+
+_VIEWS = {}
+
+
+def inlined(fb, f, want, key, depth=4, pimpl=None):
+    """the inlined view of f (see above); f itself if nothing is selected by `want`.  `key` names the selection for the cache.
+    pimpl = (field, class): calls `this->field->g(…)` into methods of that class are followed too (a facade forwarding to its Impl)."""
+    ck = (id(fb), f.sig, f.file, f.line, key)
+    if ck in _VIEWS:
+        return _VIEWS[ck]
+    if not f.ok:
+        return f
+    raw = _copy.deepcopy(f.raw)
+    mx = _maxima(raw)
+    nxt = {"n": mx["n"] + 1, "d": mx["d"] + 1, "t": mx["t"] + 1, "b": mx["b"] + 1}
+    nodes = {}
+    for b in raw["blocks"]:
+        _index_raw(b.get("elems"), nodes)
+    blocks = {b["id"]: b for b in raw["blocks"]}
+    chain = {b["id"]: (f.name,) for b in raw["blocks"]}      # call chain that led to the code of a block (recursion guard, depth)
+    lambdas = list(f.lambdas)
+    done = []
+    work = sorted(blocks)
+    while work:
+        bid = work.pop(0)
+        blk = blocks[bid]
+        i = 0
+        while i < len(blk["elems"]):
+            el = blk["elems"][i]
+            node = nodes.get(el.get("e")) if "e" in el and el.get("k") != "dtor_delete" else None
+            i += 1
+            if node is None or node.get("k") not in ("mcall", "call") or not node.get("callee"):
+                continue
+            via_pimpl = False
+            if node["k"] == "mcall" and (node.get("obj") or {}).get("k") != "this":
+                ap = access_path(node.get("obj")) if pimpl else None
+                if not (ap and len(ap) == 2 and ap[0] == "this" and ap[1] == pimpl[0]):
+                    continue
+                via_pimpl = True
+            cands = [g for g in fb.by_name.get(node["callee"], []) if g.ok and g.file == f.file and g.kind == "method" and len(g.params) == len(node.get("args", []))]
+            if len({(g.file, g.line) for g in cands}) != 1:
+                continue
+            g = cands[0]
+            # only into methods of the class the calling code belongs to (for a lambda: the class of the method that creates it)
+            here = chain[bid][-1] if len(chain[bid]) > 1 else None
+            if via_pimpl:
+                if g.cls != pimpl[1]:
+                    continue
+            elif not g.cls or not ((here.startswith(g.cls + "::")) if here else f.name.startswith(g.cls + "::")):
+                continue
+            if g.name in chain[bid] or len(chain[bid]) > depth or not want(g):
+                continue
+            # blocks created by the splice (callee copy and the rest of this block) are visited too
+            work += _splice(raw, blocks, nodes, nxt, chain, blk, i - 1, node, g)
+            lambdas += [x for x in g.lambdas if x not in lambdas]
+            done.append(g.name)
+            break       # the rest of this block now lives in the continuation block
+    if not done:
+        _VIEWS[ck] = f
+        return f
+    raw["blocks"] = [blocks[b] for b in sorted(blocks)]
+    from ..facts import Function
+    v = Function(raw)
+    v.sig = f.sig + "#inlined:" + key
+    v.lambdas = lambdas
+    v.enclosing = f.enclosing
+    if hasattr(f, "lambda_node"):
+        v.lambda_node = f.lambda_node
+    v.inlined_callees = done
+    v.unwired = nxt.get("unwired", [])      # bool callees whose value could not be tied to the branch it decides (all returns join)
+    v.origin = f
+    _VIEWS[ck] = v
+    return v
+
+
+def _transitively(fb, own, excluded):
+    """want-predicate for inlined(): g is not one of `excluded` (the rule's own anchors, judged as units) and executes — itself or
+    through further such methods of its class — something `own(g)` recognises as an event the rule reads"""
+    memo = {}
+
+    def want(g, busy=()):
+        k = (g.name, g.file, g.line)
+        if k in memo:
+            return memo[k]
+        if g.name in excluded or not g.ok or k in busy:
+            return False
+        res = bool(own(g))
+        if not res:
+            for n in g.nodes.values():
+                if n.get("k") in ("mcall", "call") and n.get("callee") and (n["k"] == "call" or (n.get("obj") or {}).get("k") == "this"):
+                    for h in fb.by_name.get(n["callee"], []):
+                        if h.ok and h.file == g.file and h.kind == "method" and h.cls == g.cls and want(h, busy + (k,)):
+                            res = True
+                            break
+                if res:
+                    break
+        if not busy:
+            memo[k] = res
+        return res
+    return want
+
+
+def engine_view(fb, cls, f):
+    """f (a method of engine `cls`) with the helpers of that engine that take part in closing a session expanded in place: a helper
+    that copies/invokes the close callback, sets Session::closed or changes the session table.  closeNow, shutdownDrain, the
+    connect handlers and process() are never expanded — each is judged as a unit by its own rule."""
+    SESS = cls + "::Session"
+    excluded = {cls + "::" + x for x in CLOSE_FNS + CONNECT_FNS[cls] + ("process",)}
+
+    def own(g):
+        for n in g.nodes.values():
+            if n.get("k") == "member":
+                if n["n"] == CBS + "onClose":
+                    return True
+                if n["n"] == SESS + "::closed" and access.classify(g, n) in ("write", "rw"):
+                    return True
+                if n["n"] == cls + "::_sessions" and access.classify(g, n) in ("write", "rw"):
+                    return True
+        return False
+    return inlined(fb, f, _transitively(fb, own, excluded), "close")
+
+
 def r1(ctx, r):
-    fb = ctx.fb()
+    fb, cg = ctx.fb(), ctx.cg()
     for cls in (TCP, UDP):
         allowed = {cls + "::" + x for x in CLOSE_FNS + CONNECT_FNS[cls]}
         n = 0
-        for f in fb.in_file(FILES[cls]):
-            if not f.ok:
-                continue
-            for e in cb_invocations(f, "onClose"):
+        # the sites inside the closed set, counted where they execute: a notification moved into a helper of the engine counts once
+        # per call of that helper from closeNow / shutdownDrain / a connect handler (R2, R3, R3c judge it there, in the same view)
+        absorbed = {}
+        for name in CLOSE_FNS + CONNECT_FNS[cls]:
+            f = engine_fn(fb, cls, name)
+            v = engine_view(fb, cls, f)
+            absorbed[f.name] = set(getattr(v, "inlined_callees", ()))
+            for e in cb_invocations(v, "onClose"):
                 n += 1
                 r.instance()
-                r.expect(f.name in allowed, f, e, "onClose invoked in %s" % last(f.name),
-                         "a close notification is fired from %s, outside the closed set {closeNow, shutdownDrain, connect handlers}: nothing there makes it exactly-once" % short(f.name),
-                         okdesc="%s: onClose invocation" % short(f.name))
+                r.ok("%s: onClose invocation" % short(f.name))
+
+        def carried(g, seen=()):
+            """every call of helper g comes from the closed set (where the view expanded it) or from a helper that is carried itself"""
+            sites = [c for (c, e, nd) in cg.callers.get(g.name, []) if c.ok]
+            if not sites or g.name in seen:
+                return False
+            for c in sites:
+                if c.name in allowed:
+                    if g.name not in absorbed[c.name]:
+                        return False
+                elif c.kind != "method" or c.cls != cls or not carried(c, seen + (g.name,)):
+                    return False
+            return True
+        for f in fb.in_file(FILES[cls]):
+            if not f.ok or f.name in allowed:
+                continue
+            invs = cb_invocations(f, "onClose")
+            if not invs or (f.kind == "method" and f.cls == cls and carried(f)):
+                continue
+            for e in invs:
+                n += 1
+                r.instance()
+                r.fail(f, e, "onClose invoked in %s" % last(f.name),
+                       "a close notification is fired from %s, outside the closed set {closeNow, shutdownDrain, connect handlers}%s: nothing there makes it exactly-once" % (
+                           short(f.name), "" if not cg.callers.get(f.name) else " (it is also reached from %s)" % ", ".join(sorted({short(c.name) for (c, e2, nd) in cg.callers[f.name] if c.name not in allowed})[:3] or ["a call the rule cannot expand"])))
         floor = {TCP: 7, UDP: 9}[cls]
         if n < floor:
             raise AnalysisBroken("%s: %d close-notification sites found, floor %d" % (last(cls), n, floor))
@@ -85,7 +530,7 @@ def r2(ctx, r):
     for cls in (TCP, UDP):
         SESS = cls + "::Session"
         for name in CLOSE_FNS:
-            f = engine_fn(fb, cls, name)
+            f = engine_view(fb, cls, engine_fn(fb, cls, name))      # (helpers that notify / mark closed / erase are seen in place)
             invs = cb_invocations(f, "onClose")
             # two kinds of site: notifications for a Session object (first argument reads Session::id) and, in shutdownDrain,
             # notifications for connect commands that never got a Session (first argument comes from the command) — the
@@ -113,8 +558,9 @@ def r2(ctx, r):
                 if e.kind == "stmt" and e.node.get("k") == "bin" and e.node["op"] == "=" and field_of(e.node["lhs"]) == SESS + "::closed":
                     v = const_value(e.node["rhs"])
                     return [("set", "closed", bool(v))] if v is not None else [("havoc", "closed")]
-                # a new loop iteration looks at another session
-                if e.kind == "stmt" and e.node.get("k") == "decl" and any(v["t"].endswith("Session *") for v in e.node["vars"]):
+                # a new loop iteration looks at another session (the binding of a helper's `Session *` parameter to the caller's
+                # pointer is the same session, not another one)
+                if e.kind == "stmt" and e.node.get("k") == "decl" and not e.node.get("inlined_param") and any(v["t"].endswith("Session *") for v in e.node["vars"]):
                     return [("havoc", "closed")]
                 return None
             pa = PredAbs(f, vocab, leaf, eff)
@@ -141,7 +587,7 @@ def r3(ctx, r):
     fb = ctx.fb()
     for cls in (TCP, UDP):
         for name in CONNECT_FNS[cls]:
-            f = engine_fn(fb, cls, name)
+            f = engine_view(fb, cls, engine_fn(fb, cls, name))      # (a failure path that notifies through a helper still notifies)
             invs = cb_invocations(f, "onClose")
             ins = common.member_calls_on(f, cls + "::_sessions", ("emplace", "insert", "try_emplace", "insert_or_assign"))
             if not ins:
@@ -225,7 +671,7 @@ def r3c(ctx, r):
     fb = ctx.fb()
     KINDS = {TCP: {"Connect": "c"}, UDP: {"Connect": "c", "Via": "v"}}
     for cls in (TCP, UDP):
-        f = engine_fn(fb, cls, "shutdownDrain")
+        f = engine_view(fb, cls, engine_fn(fb, cls, "shutdownDrain"))
         SESS = cls + "::Session"
         sites = [(e, _first_cb_arg(e)) for e in cb_invocations(f, "onClose") if not _reads_session_id(f, _first_cb_arg(e), SESS)]
         # kind tests `c.t == Kind` (each leaf of a disjunction has its own block); a site is guarded by them if it cannot be reached
@@ -267,9 +713,60 @@ def r3c(ctx, r):
             r.expect(w is None, f, e, "residual command closed twice", "a residual command can be notified by two sites in one iteration", okdesc="residual command notified once")
 
 
+class PredAbsSw(PredAbs):
+    """PredAbs that also refines on the edges of a `switch`: the edge to `case V:` assumes `cond == V`; the default edge (also the
+    edge past a switch that has no default) assumes `cond != V` for every labelled case.  The comparisons are offered to the rule's
+    leaf function as ordinary `==` nodes, so an if/else-if chain over an enum and a switch over it refine the same atoms."""
+
+    def _edge(self, st, b, si):
+        t = b.term
+        c = b.cond if t and t.get("k") == "SwitchStmt" else None
+        if c is None:
+            return PredAbs._edge(self, st, b, si)
+
+        def eq(v):
+            return {"k": "bin", "op": "==", "lhs": c, "rhs": v}
+        lab = b.edge_label(si)
+        if isinstance(lab, tuple) and lab[0] == "case" and lab[1]:
+            st = self.v.assume(st, known_when(translate(eq(lab[1]), self.leaf), True))
+        elif lab == "default":
+            for sj, s in enumerate(b.succs):
+                l2 = b.edge_label(sj) if s is not None else None
+                if isinstance(l2, tuple) and l2[0] == "case" and l2[1]:
+                    st = self.v.assume(st, known_when(translate(eq(l2[1]), self.leaf), False))
+        return st if st else None
+
+
+def _pure_predicate(g):
+    """a bool-returning method that only looks: writes no field, calls nothing but const standard-library members"""
+    if g.raw.get("ret") != "bool" or not g.ok:
+        return False
+    for n in g.nodes.values():
+        k = n.get("k")
+        if k == "member" and access.classify(g, n) in ("write", "rw"):
+            return False
+        if k in ("lambda", "throw", "delete", "new"):
+            return False
+        if k in ("call", "mcall", "opcall"):
+            c = n.get("callee") or ""
+            if not c.startswith("std::") or c == "std::function::operator()" or last(c) in access.MUTATORS:
+                return False
+        if k == "bin" and n.get("op") in _ASSIGN_OPS or k == "un" and ("++" in n.get("op", "") or "--" in n.get("op", "")):
+            return False
+    return True
+
+
 def r4(ctx, r):
+    from ..finite import dominating_facts
     fb = ctx.fb()
-    f = engine_fn(fb, TCP, "process")
+    # the re-validation may be spelled as a predicate method of the engine (`if (isStale(*s, c.closeOrigin)) break;`): such a pure
+    # bool method is expanded at the branch it decides, each of its returns wired to the edge its value selects
+    # — and so is a method that reads the command's closeOrigin (the Close case moved out of process() as a whole)
+    def revalidates(g):
+        if g.name in {TCP + "::" + x for x in CLOSE_FNS + CONNECT_FNS[TCP] + ("process",)}:
+            return False
+        return _pure_predicate(g) or any(n.get("k") == "member" and n["n"].endswith("Command::closeOrigin") and access.classify(g, n) == "read" for n in g.nodes.values())
+    f = inlined(fb, engine_fn(fb, TCP, "process"), revalidates, "revalidation")
     SESS = TCP + "::Session"
     vocab = Vocab(["o_ct", "o_hs", "o_ws", "pending", "hs", "wqempty"])
     origin = {"ConnectTimeout": "o_ct", "HandshakeTimeout": "o_hs", "WriteStall": "o_ws"}
@@ -281,6 +778,9 @@ def r4(ctx, r):
                 if l["n"].endswith("Command::closeOrigin") and last(rr["n"]) in origin:
                     a = A(origin[last(rr["n"])])
                     return a if n["op"] == "==" else Not(a)
+                if l["n"].endswith("Command::closeOrigin") and n["op"] == "==":
+                    # any other enumerator (App, …): none of the three timer origins
+                    return And(Not(A("o_ct")), Not(A("o_hs")), Not(A("o_ws")))
                 if l["n"] == SESS + "::tlsState" and last(rr["n"]) == "Handshake":
                     return A("hs") if n["op"] == "==" else Not(A("hs"))
         if n.get("k") == "member" and n["n"] == SESS + "::connectPending":
@@ -290,18 +790,31 @@ def r4(ctx, r):
         return None
     excl = And(Not(And(A("o_ct"), A("o_hs"))), Not(And(A("o_ct"), A("o_ws"))), Not(And(A("o_hs"), A("o_ws"))))
 
+    CMD = ("iora::network::TcpEngine::Command", "iora::network::TcpEngine::Command &", "const iora::network::TcpEngine::Command &", "const iora::network::TcpEngine::Command")
+
     def eff(e):
-        # each command of the loop is a fresh origin
-        if e.kind == "stmt" and e.node.get("k") == "decl" and any(v["n"] == "c" for v in e.node["vars"]):
+        # each command of the loop is a fresh origin (the loop variable is found by its type, whatever it is called)
+        if e.kind == "stmt" and e.node.get("k") == "decl" and not e.node.get("inlined_param") and any(v["t"] in CMD for v in e.node["vars"]):
             return [("havoc_all", ["o_ct", "o_hs", "o_ws", "pending", "hs", "wqempty"]), ("assume", excl)]
         return None
-    pa = PredAbs(f, vocab, leaf, eff, init=excl)
+    if not any(e.node.get("k") == "decl" and not e.node.get("inlined_param") and any(v["t"] in CMD for v in e.node["vars"]) for e in f.stmts()):
+        raise AnalysisBroken("process(): the per-command loop variable (a TcpEngine::Command) was not found")
+    pa = PredAbsSw(f, vocab, leaf, eff, init=excl)
     closes = [e for e in f.stmts() if e.node.get("k") == "mcall" and e.node.get("callee") == TCP + "::closeNow"]
     if not closes:
         raise AnalysisBroken("process() no longer calls closeNow for Cmd::Close")
     goal = And(Or(Not(A("o_ct")), A("pending")), Or(Not(A("o_hs")), A("hs")), Or(Not(A("o_ws")), Not(A("wqempty"))))
     for e in closes:
         r.instance()
+        if not pa.entails(e, goal):
+            # a verdict needs every test on the way to be readable: a guard that is a call into the engine which could not be expanded
+            # at its branch (not a pure predicate, or its value goes through a variable) hides what it re-checks — refuse, do not guess
+            if getattr(f, "unwired", None):
+                raise AnalysisBroken("process(): the result of %s reaches its branch through a variable the rule does not track" % short(f.unwired[0]))
+            for (c, t) in dominating_facts(f, e):
+                for x in walk(c):
+                    if x.get("k") in ("call", "mcall") and (x.get("callee") or "").startswith(TCP + "::") and x.get("callee") not in getattr(f, "inlined_callees", ()):
+                        raise AnalysisBroken("process(): closeNow is guarded by a call to %s whose result the rule cannot follow to the branch" % short(x["callee"]))
         r.expect(pa.entails(e, goal), f, e, "stale timer close not re-validated",
                  "a timer-originated close command reaches closeNow without the condition that armed the timer being re-checked (connect still pending / handshake still in "
                  "progress / write queue still non-empty): a stale timeout closes a healthy session (known: %s)" % ",".join(pa.describe(e)),
@@ -326,9 +839,29 @@ def r4(ctx, r):
 def r5(ctx, r):
     fb = ctx.fb()
     for cls in (TCP, UDP):
+        def events(g, cls=cls):
+            return (cb_invocations(g, "onAccept") + cb_invocations(g, "onConnect"),
+                    common.member_calls_on(g, cls + "::_sessions", ("emplace", "insert", "try_emplace")),
+                    cb_invocations(g, "onData") + [e for e in g.stmts() if e.node.get("k") == "mcall" and e.node.get("callee") == cls + "::readAvail"])
+
+        def expands(f, cls=cls):
+            # two shapes of helper are seen in place in the function that calls them: (a) one that only announces (copy-then-invoke of
+            # onAccept/onConnect plus bookkeeping; neither inserts nor delivers) — its call is the announcement; (b) one that creates
+            # the session (inserts, and usually announces) called from a function that itself delivers data — the obligation 'announce
+            # before the first data of the session just created' spans that call.  process(), the close routines and readAvail (the
+            # rule's own name for 'data is delivered') always stay calls.
+            delivers = bool(events(f)[2])
+
+            def want(g):
+                if g.name in {cls + "::" + x for x in CLOSE_FNS + ("process", "readAvail")}:
+                    return False
+                a, i, d = events(g)
+                return (bool(a) and not i and not d) or (bool(i) and delivers)
+            return want
         for f in fb.in_file(FILES[cls]):
             if not f.ok or f.cls != cls:
                 continue
+            f = inlined(fb, f, expands(f), "announce")
             ann = cb_invocations(f, "onAccept") + cb_invocations(f, "onConnect")
             if not ann:
                 continue
@@ -413,20 +946,67 @@ def r7(ctx, r):
     r.floor(8, "gauge sites")
 
 
+def close_handler(ctx):
+    """the transport's engine-close handler (the lambda stored in Callbacks::onClose) as one body: steps that were moved into
+    methods of Transport::Impl — a named handler the lambda forwards to, one method per step — are expanded in place when they
+    (transitively) invoke a std::function, wait on a condition variable, or touch the per-session maps the fan-out works on"""
+    fb = ctx.fb()
+    IMPL = c03.IMPL
+    maps = {IMPL + "::" + x for x in ("observers", "observerToSession", "sessionData", "receiveBuffers", "readModes", "pendingConnects", "onCloseCb")}
+
+    def own(g):
+        for n in g.nodes.values():
+            k = n.get("k")
+            if k == "member" and n["n"] in maps:
+                return True
+            if k == "opcall" and n.get("op") == "()" and n.get("callee") == "std::function::operator()":
+                return True
+            if k == "mcall" and (n.get("callee") or "").startswith("std::condition_variable") and last(n["callee"]) in common.CV_WAIT:
+                return True
+        return False
+    return inlined(fb, c03.lambdas(ctx)["onClose"], _transitively(fb, own, set()), "fanout")
+
+
+def _fn_copies(f, field):
+    """declaration ids of the locals of f that receive a copy of the std::function member `field` (`cb = field` / `auto cb = field`)"""
+    out = set()
+    for n in f.nodes.values():
+        if n.get("k") == "opcall" and n.get("op") == "=" and len(n["args"]) == 2 and field_of(strip_wrappers(n["args"][1])) == field and strip_wrappers(n["args"][0]).get("k") == "var":
+            out.add(strip_wrappers(n["args"][0]).get("d"))
+        if n.get("k") == "decl":
+            for v in n["vars"]:
+                i = v.get("init")
+                if i is not None and "std::function" in v["t"] and any(x.get("k") == "member" and x["n"] == field for x in walk(i)):
+                    out.add(v["d"])
+    return out
+
+
+def fanout_sites(oc):
+    """the user callbacks the close handler invokes, told apart by where the callee object comes from (not by what a local is
+    called): the global close callback is (a copy of) Impl::onCloseCb, the user-data cleanup is (a copy of) UserData::cleanup, and
+    every other std::function invoked there is a per-session observer — it has to obey the observers' place in the order"""
+    IMPL = c03.IMPL
+    gl, cl = _fn_copies(oc, IMPL + "::onCloseCb"), _fn_copies(oc, IMPL + "::UserData::cleanup")
+    gs, os_, cs = [], [], []
+    for (e, t) in common.fn_invocations(oc):
+        t = strip_wrappers(t)
+        if field_of(t) == IMPL + "::onCloseCb" or (t.get("k") == "var" and t.get("d") in gl):
+            gs.append(e)
+        elif field_of(t) == IMPL + "::UserData::cleanup" or (t.get("k") == "var" and t.get("d") in cl):
+            cs.append(e)
+        else:
+            os_.append(e)
+    return gs, os_, cs
+
+
 def r8(ctx, r):
     la = c03._la(ctx)
-    oc = c03.lambdas(ctx)["onClose"]
+    oc = close_handler(ctx)
     IMPL = c03.IMPL
-    invs = common.fn_invocations(oc)
-
-    def pick(pred, what):
-        xs = [e for (e, t) in invs if pred(show(t))]
+    gs, os_, cs = fanout_sites(oc)
+    for xs, what in ((gs, "global close callback"), (os_, "observer"), (cs, "user-data cleanup")):
         r.instance()
         r.expect(bool(xs), oc, None, "no %s" % what, "the transport close handler no longer invokes the %s" % what, okdesc="%s invoked" % what)
-        return xs
-    gs = pick(lambda t: "closeCb" in t or "onCloseCb" in t, "global close callback")
-    os_ = pick(lambda t: "obs" in t.lower(), "observer")
-    cs = pick(lambda t: "cleanup" in t, "user-data cleanup")
     if not (gs and os_ and cs):
         return
     g, o, c = gs[0], os_[0], cs[0]
@@ -460,7 +1040,8 @@ def r8(ctx, r):
     er_ud = common.member_calls_on(oc, IMPL + "::sessionData", ("erase",))
     r.instance(2)
     r.expect(er_obs and all(la.holds(oc, e, IMPL + "::observerMutex") and search(oc, o, lambda x, e=e: x is e, eh=False) is None for e in er_obs), oc, o, "observers not removed first",
-             "the session's observers are not erased (under observerMutex) before they are invoked: a re-entrant close would notify them twice", okdesc="observers erased under observerMutex before invocation")
+             "the session's observers are not erased (under observerMutex) before they are invoked: a re-entrant close would notify them twice, and an unobserve() issued while the fan-out runs still finds "
+             "its id, reports success, and the observer taken in the copy fires anyway (a no-longer-registered observer receives the close)", okdesc="observers erased under observerMutex before invocation")
     r.expect(er_ud and all(la.holds(oc, e, IMPL + "::userDataMutex") and search(oc, c, lambda x, e=e: x is e, eh=False) is None for e in er_ud), oc, c, "user data not removed first",
              "the session's user data is not erased (under userDataMutex) before its cleanup runs: cleanup could run twice", okdesc="user data erased under userDataMutex before cleanup")
     # the per-session observer vector keeps registration order: additions at the back, removals order-preserving
@@ -550,7 +1131,7 @@ def r8(ctx, r):
                  "setReadMode(sid, Async) takes the Sync→Async flush path and hands the undrained bytes to the data callback — data after close" % witness_str(oc, w), okdesc="readModes[sid] erased on every announced close")
     # observers iterate the copy front to back
     r.instance()
-    begins = [e for e in oc.stmts() if e.node.get("k") == "mcall" and last(e.node.get("callee", "")) in ("rbegin", "crbegin") and "sessionObservers" in show(e.node)]
+    begins = [e for e in oc.stmts() if e.node.get("k") == "mcall" and last(e.node.get("callee", "")) in ("rbegin", "crbegin") and "vector<std::pair<unsigned long, std::function" in (e.node.get("obj") or {}).get("t", "")]
     r.expect(not begins, oc, begins[0] if begins else None, "observer order", "observers are iterated in reverse registration order", okdesc="observers invoked in registration order")
 
 
@@ -564,12 +1145,16 @@ def r9(ctx, r):
     fb = ctx.fb()
     la = c03._la(ctx)
     IMPL, SRB = c03.IMPL, c03.SRB
-    f = fb.func("iora::network::Transport::setReadMode")
-    oc = c03.lambdas(ctx)["onClose"]
+    # (the flush loop may live in a method of Impl that setReadMode forwards to: any Impl method on the way that invokes a
+    # std::function is expanded into the view; the known finding stays keyed on setReadMode)
+    f = inlined(fb, fb.func("iora::network::Transport::setReadMode"),
+                _transitively(fb, lambda g: any(n.get("k") == "opcall" and n.get("op") == "()" and n.get("callee") == "std::function::operator()" for n in g.nodes.values()), set()),
+                "flush", pimpl=("iora::network::Transport::_impl", IMPL))
+    oc = close_handler(ctx)
     deliveries = [e for (e, t) in common.fn_invocations(f)]
     if not deliveries:
         raise AnalysisBroken("setReadMode: flush delivery not found")
-    glob = [e for (e, t) in common.fn_invocations(oc) if "closeCb" in show(t) or "onCloseCb" in show(t)]
+    glob = fanout_sites(oc)[0]
     if not glob:
         raise AnalysisBroken("onClose handler: global close callback invocation not found")
     # P1
